@@ -2,8 +2,11 @@
 """import_seeded.py Cnn...: copy validated sub-agent changes from /tmp/seedmut/Cnn.out/N into
 /verif/seeded/Cnn-N/ (patch.diff, demo, notes, meta.json)."""
 import sys, os, shutil, json, re
+ROUND = os.environ.get("ROUND", "2")
+ROOT = os.environ.get("R", "/tmp/seedmut2")
+ORD = {"2": "second", "3": "third"}[ROUND]
 for cid in sys.argv[1:]:
-    base = f"/tmp/seedmut2/{cid}.out"
+    base = f"{ROOT}/{cid}.out"
     for n in sorted(os.listdir(base)):
         d = os.path.join(base, n)
         if not (os.path.isdir(d) and os.path.exists(os.path.join(d, "patch.diff"))):
@@ -12,16 +15,16 @@ for cid in sys.argv[1:]:
         if "TESTS-OK" not in val or "DEMO-DIFFERS" not in val:
             print("skip (not validated):", d, val.strip()[-80:])
             continue
-        dst = f"/verif/seeded/{cid}-r2-{n}"
+        dst = f"/verif/seeded/{cid}-r{ROUND}-{n}"
         os.makedirs(dst, exist_ok=True)
         for f in ["patch.diff", "demo.sd", "expected.txt", "actual.txt", "notes.md"]:
             if os.path.exists(os.path.join(d, f)):
                 shutil.copy(os.path.join(d, f), os.path.join(dst, f))
         notes = open(os.path.join(d, "notes.md")).read() if os.path.exists(os.path.join(d, "notes.md")) else ""
         meta = {
-            "id": f"{cid}-r2-{n}",
+            "id": f"{cid}-r{ROUND}-{n}",
             "breaks_property": cid,
-            "origin": "fresh sub-agent given only the property text and a scratch worktree of /repo (HEAD c487667, second round: told which changes the first round had produced and asked for different ones)",
+            "origin": f"fresh sub-agent given only the property text and a scratch worktree of /repo (HEAD c487667, {ORD} round: told which changes the earlier rounds had produced and asked for different ones)",
             "needs_to_manifest": notes.strip().split("\n\n")[0][:1500],
             "confirmed_by": "tools/validate_seeded.sh: patch applied to a clean scratch worktree, cargo build, cargo test --workspace --no-fail-fast --offline (3 + 336 passed, 0 failed), demo.sd run with and without the change",
             "validation": val.strip().splitlines(),
